@@ -41,8 +41,9 @@ def run(ctx):
     if ri:
         # reuse C04's enumeration for the Reverted row and the WalletInfo literal
         nx = [b for b, t in cfg.find_calls(ri, "core::iter::traits::iterator::Iterator::next")]
-        names = ri.var_names()
-        accs = {l: n for l, n in names.items() if n.endswith("_total")}
+        from .C04 import accumulator_roles
+        wl = vf.struct_literals(ri, c.LW + "types::WalletInfo")
+        accs = accumulator_roles(ri, wl[0][1])[0] if len(wl) == 1 else {}
         if len(nx) == 1:
             head = nx[0]
             body = ri.bbs[head]["t"]["t"]
@@ -128,7 +129,7 @@ def run(ctx):
             g_api = None
             for b, t in ap.calls():
                 if "HashMap::" in (t.get("f") or "") and (t.get("f") or "").endswith("::get"):
-                    if any(x[0] == "arg" and ap.var_names().get(x[1]) == "api_outputs" for x in vf.producers(ap, t["a"][0])):
+                    if any(x[0] == "arg" and x[1] == c.param(ap, "api_outputs", "(alloc::string::String, u64, u64)") for x in vf.producers(ap, t["a"][0])):
                         g_api = cfg.call_guard(ap, b)
             held = g_api is not None and bool(g_api.fail) and cfg.must_pass(ap, g_api.fail, rb)[0]
             run.instance(R4, {"obligation": "mark_reverted only when the output is absent from the node's answer"}, held=held)
